@@ -5,6 +5,7 @@ import itertools
 import math
 import os
 
+from . import common
 from .common import Check, cmat, fmt_ints, fmt_matrix, kv
 
 THEOREMS = [
@@ -623,5 +624,17 @@ def check(ck: Check) -> None:
         "float flow powers: test only (spec oracle on implementation outputs; bonus clauses insidepos/strict not applied)",
     ]
     ck.not_proved += NOT_PROVED
-    ck.lean(["Props.C20"], THEOREMS)
+    modules, theorems = ["Props.C20"], list(THEOREMS)
+    # tie between source and model: lean/Gen/SwapDistance.lean is regenerated from the CURRENT source of swap_distance (the
+    # `while` loop by fuel, np.argsort as a parameter); Props/C20Gen.lean proves it equal to the hand-written model
+    try:
+        from .translate import loop2lean
+        ck.gen_begin()   # released at the end of ck.lean
+        loop2lean.emit_swap_distance(common.REPO, common.LEAN)
+        modules.append("Props.C20Gen")
+        theorems += ["C20Gen.swap_distance_eq_model", "C20Gen.swap_distance_fuel_ge", "C20Gen.swap_distance_perm"]
+    except Exception as e:  # noqa: BLE001 - source outside the translatable subset: the obligation cannot be regenerated
+        ck.proof_failures.append(f"translator loop2lean: swap_distance is not translatable, the theorems C20Gen.swap_distance_* "
+                                 f"could not be re-checked against the source: {e!r}")
+    ck.lean(modules, theorems)
     streams(ck)
